@@ -6,6 +6,7 @@ CONSTANTS
   ClientOps = {"cancel"}
   RestartIfIdKnown = FALSE
   IdStoredLate = FALSE
+  RestartSkipsComplete = FALSE
   StdoutFromZero = FALSE
   ReleaseSkipsRemote = FALSE
 PROPERTIES
